@@ -250,3 +250,41 @@ package stdlib
 // durationformat reads its argument as a plain base-10 integer number of seconds
 //@ func kfDurationFormat$1
 //@   ensures !int_ok(app((*args)[0], context)) ==> result == "<BAD-TYPE>"
+
+// ---- C11: logic helpers over truthiness ("1" / "", truthy = non-blank) ----
+//@ pred truthy(s) := str_trim(s) != ""
+//@ func kfNot$1
+//@   ensures result == (if truthy(app((*args)[0], context)) then "" else "1")
+//@ func kfIf$1
+//@   ensures [then] truthy(app((*args)[0], context)) ==> result == app((*args)[1], context)
+//@   ensures [else] !truthy(app((*args)[0], context)) && len(*args) >= 3 ==> result == app((*args)[2], context)
+//@   ensures [none] !truthy(app((*args)[0], context)) && len(*args) < 3 ==> result == ""
+//@ func kfUnless$1
+//@   ensures [then] !truthy(app((*args)[0], context)) ==> result == app((*args)[1], context)
+//@   ensures [none] truthy(app((*args)[0], context)) ==> result == ""
+// and: "1" iff every argument is truthy; or: "1" iff some argument is truthy
+//@ func kfAnd$1
+//@   ensures [all] (forall j in [0, len(*args)) :: truthy(app((*args)[j], context))) ==> result == "1"
+//@   ensures [only-if] result == "1" || result == ""
+//@   assert at "return FalsyVal" : !truthy(app(arg, context))
+//@   loop 1 invariant forall j in [0, rangeindex + 1) :: truthy(app((*args)[j], context))
+//@ func kfOr$1
+//@   ensures [none] (forall j in [0, len(*args)) :: !truthy(app((*args)[j], context))) ==> result == ""
+//@   ensures [only-if] result == "1" || result == ""
+//@   assert at "return TruthyVal" : truthy(app(arg, context))
+//@   loop 1 invariant forall j in [0, rangeindex + 1) :: !truthy(app((*args)[j], context))
+// switch: the value after the first truthy condition, else the odd last argument, else ""
+//@ func kfSwitch$1
+//@   assert at "return args[i+1](context)" : truthy(app((*args)[i], context)) && i % 2 == 0 && (forall j in [0, i) :: j % 2 == 0 ==> !truthy(app((*args)[j], context)))
+//@   assert at "if len(args)%2 == 1 {" : forall j in [0, len(*args) - 1) :: j % 2 == 0 ==> !truthy(app((*args)[j], context))
+//@   loop 1 invariant i % 2 == 0 && (forall j in [0, i) :: j % 2 == 0 ==> !truthy(app((*args)[j], context)))
+// coalesce: the first non-empty argument
+//@ func kfCoalesce$1
+//@   ensures [none] (forall j in [0, len(*args)) :: app((*args)[j], context) == "") ==> result == ""
+//@   assert at "return val" : val != "" && val == app(arg, context)
+//@   loop 1 invariant forall j in [0, rangeindex + 1) :: app((*args)[j], context) == ""
+// len / isint
+//@ func kfLen$1
+//@   ensures result == itoa(len(app((*args)[0], context)))
+//@ func kfIsInt$1
+//@   ensures result == (if int_ok(app((*args)[0], context)) then "1" else "")
